@@ -306,10 +306,17 @@ type c01Spy struct {
 	hdr  http.Header
 	code int
 	body strings.Builder
+	// strict: the writer refuses status codes outside 100..999 the way net/http's does, with a panic
+	strict bool
 }
 
-func (s *c01Spy) Header() http.Header         { return s.hdr }
-func (s *c01Spy) WriteHeader(c int)           { s.code = c }
+func (s *c01Spy) Header() http.Header { return s.hdr }
+func (s *c01Spy) WriteHeader(c int) {
+	if s.strict && (c < 100 || c > 999) {
+		panic(fmt.Sprintf("invalid WriteHeader code %v", c))
+	}
+	s.code = c
+}
 func (s *c01Spy) Write(b []byte) (int, error) { s.body.Write(b); return len(b), nil }
 
 func newReq(method, path string) *http.Request {
